@@ -9,19 +9,16 @@ Local Open Scope Z_scope.
 Fixpoint nodup_pos (l : list pos) : bool :=
   match l with [] => true | p :: r => negb (mem_pos p r) && nodup_pos r end.
 Definition nonlocal_entry (kp : key * pos) : bool := match fst kp with KLocal _ => false | _ => true end.
-Definition not_replace_op (s : stmt) : bool := match s with SReplaceOp _ => false | _ => true end.
 (* - the conversion recorded every pattern value at its own position (what makes the argument list of the
      rewriter function line up with the positions handed over by record_match), no local value among them,
-   - as many rewriter arguments as positions,
-   - a pdl.replace-with-operation only for a root that declares result types *)
+   - as many rewriter arguments as positions *)
 Definition rewrite_static_ok (fx : fixes) (P : pattern) : bool :=
   let '(preds, inp) := extract fx P in
   nodup_pos (map snd inp) && forallb nonlocal_entry inp &&
   match gen_stmts fx P inp (p_root P) rg_init (p_rw P) with
   | Some (st, _) => rg_nargs st =? zlen (rg_used st)
   | None => false
-  end &&
-  match op_rtys (p_root P) with [] => forallb not_replace_op (p_rw P) | _ => true end.
+  end.
 
 Lemma klookup_In : forall A (l : list (key * A)) k v, klookup l k = Some v -> In (k, v) l.
 Proof.
@@ -88,6 +85,17 @@ Proof.
   destruct (match_types P e0 rtys (o_rtys x)); try discriminate. inversion H; subst. apply klookup_cons_eq.
 Qed.
 
+Lemma root_rtys : forall fx P pl o x e', match_op fx P pl [] o x = MOk e' -> zlen (op_rtys o) = zlen (o_rtys x).
+Proof.
+  intros fx P pl [id name attrs operands rtys] x e' H. cbn [match_op op_rtys] in *. unfold bound_or in H. simpl klookup in H.
+  destruct (match name with Some n => negb (o_name x =? n) | None => false end); [discriminate |].
+  destruct (match_attrs P x [] attrs); try discriminate.
+  destruct (negb (zlen operands =? zlen (o_operands x))); [discriminate |].
+  destruct (match_operands_with _ e operands (o_operands x)); try discriminate.
+  destruct (negb (zlen rtys =? zlen (o_rtys x))) eqn:E; [discriminate |].
+  apply negb_false_iff, Z.eqb_eq in E. exact E.
+Qed.
+
 Theorem rewrite_equiv_partial : forall fx P pl x c plF,
   fx_erase fx = true -> fx_range fx = true -> fx_infer fx = true ->
   match_side_conditions fx P pl -> rewrite_static_ok fx P = true ->
@@ -101,7 +109,7 @@ Proof.
   destruct (extract_op fx P [] (p_root P) PRoot) as [preds inp] eqn:Eext. cbn [fst snd] in *.
   destruct (gen_stmts fx P inp (p_root P) rg_init (p_rw P)) as [[st code]|] eqn:Eg; [| discriminate].
   inversion Hc; subst c; clear Hc.
-  apply andb_true_iff in Hst. destruct Hst as [Hst Hfr]. apply andb_true_iff in Hst. destruct Hst as [Hst Hsync].
+  apply andb_true_iff in Hst. destruct Hst as [Hst Hsync].
   apply andb_true_iff in Hst. destruct Hst as [Hnd Hnl]. apply Z.eqb_eq in Hsync.
   destruct (match_op fx P pl [] (p_root P) x) as [| |e] eqn:Em; try discriminate.
   cbn [agree] in Hsim. destruct Hsim as [Hall HR].
@@ -148,8 +156,9 @@ Proof.
     + intros p [].
   - exact Eg.
   - apply pre_refl.
-  - destruct (op_rtys (p_root P)); [right | left; discriminate].
-    apply Forall_forall. intros s Hs. rewrite forallb_forall in Hfr. specialize (Hfr _ Hs). destruct s; try exact I. discriminate.
+  - intros Hnil x' Hx'. rewrite Hx in Hx'. inversion Hx'; subst x'.
+    pose proof (root_rtys _ _ _ _ _ _ Em) as Hz. rewrite Hnil in Hz. unfold zlen in Hz. simpl in Hz.
+    destruct (o_rtys x); [reflexivity | simpl in Hz; lia].
   - exact Hd.
 Qed.
 
@@ -180,4 +189,139 @@ Proof.
     + exfalso. apply (Hm args). reflexivity.
   - discriminate Hd.
   - exfalso. eapply run_rw_not_nomatch. exact Hd.
+Qed.
+
+(* all repairs present: only static conditions on the pattern remain *)
+Corollary rewrite_equiv_repaired : forall P pl x c seen',
+  lin_op (p_root P) [] = Some seen' -> idx_op false (p_root P) ->
+  rewrite_static_ok repaired P = true -> compile_guarded repaired P = true ->
+  find_op pl (o_id x) = Some x -> compile repaired P = Some c ->
+  (forall plF, pdl_apply repaired P pl (o_id x) = ROk plF -> interp_apply repaired c pl (o_id x) = ROk plF) /\
+  (pdl_apply repaired P pl (o_id x) = RNoMatch -> interp_apply repaired c pl (o_id x) = RNoMatch).
+Proof.
+  intros P pl x c seen' Hlin Hidx Hs Hg Hx Hc.
+  assert (Hsc : match_side_conditions repaired P pl).
+  { repeat split; try (left; reflexivity); [exists seen'; exact Hlin | exact Hidx]. }
+  split.
+  - intros plF Hd. eapply rewrite_equiv_partial; try eassumption; reflexivity.
+  - intro Hd. eapply apply_nomatch; eassumption.
+Qed.
+
+From XV Require Import C27.ProofsRewriteFull.
+
+Lemma eval_pos_norange : forall fx pl root p v, eval_pos fx pl root p = Some v -> norange v.
+Proof.
+  intros fx pl root p v H. destruct p; cbn [eval_pos] in H.
+  - inversion H; exact I.
+  - destruct (as_op pl (eval_pos fx pl root p)); [| discriminate]. inversion H. destruct (znth (o_operands p0) i); exact I.
+  - destruct (eval_pos fx pl root p) as [[| | [k|q k] | | | |]|]; try discriminate; inversion H; try exact I.
+    destruct (find_op pl q); exact I.
+  - destruct (as_op pl (eval_pos fx pl root p)); [| discriminate]. inversion H. destruct ((0 <=? i) && (i <? zlen (o_rtys p0))); exact I.
+  - destruct (as_op pl (eval_pos fx pl root p)); [| discriminate]. inversion H.
+    destruct (if fx_attrorder fx then get_attr_or_prop p0 n else get_attr_then_prop p0 n); exact I.
+  - destruct (eval_pos fx pl root p) as [[]|]; try discriminate. inversion H. exact I.
+Qed.
+
+(* the fragment of ProofsRewriteFull, as an executable check: no pdl.result statement in the rewrite, no empty
+   replacement list, replace-with-operation only for a root with declared result types, and every match-part value
+   the rewrite reads is reached by the match tree *)
+Definition frag_b (rootpat : op_pat) (s : stmt) : bool :=
+  match s with
+  | SResult _ _ _ => false
+  | SReplaceVals [] => false
+  | SReplaceOp _ => match op_rtys rootpat with [] => false | _ => true end
+  | _ => true
+  end.
+Definition key_reached (inp : inputs) (k : key) : bool :=
+  match k with KLocal _ => true | _ => match klookup inp k with Some _ => true | None => false end end.
+Definition rewrite_frag_ok (fx : fixes) (P : pattern) : bool :=
+  let '(preds, inp) := extract fx P in
+  forallb (fun s => frag_b (p_root P) s && forallb (key_reached inp) (stmt_keys s)) (p_rw P).
+
+Theorem rewrite_equiv_full : forall fx P pl x c,
+  fx_erase fx = true -> fx_range fx = true -> fx_infer fx = true ->
+  match_side_conditions fx P pl -> rewrite_static_ok fx P = true -> compile_guarded fx P = true ->
+  rewrite_frag_ok fx P = true ->
+  find_op pl (o_id x) = Some x -> compile fx P = Some c ->
+  pdl_apply fx P pl (o_id x) = interp_apply fx c pl (o_id x).
+Proof.
+  intros fx P pl x c Her Hra Hin Hsc Hst Hgd Hfrag Hx Hc.
+  destruct (pdl_apply fx P pl (o_id x)) as [| |plF0] eqn:Hd0.
+  { symmetry. eapply apply_nomatch; eassumption. }
+  2:{ symmetry. eapply rewrite_equiv_partial; eassumption. }
+  (* the direct application raises: then the converted one raises as well *)
+  pose proof Hsc as (Hf & Ha & Hr & (seen' & Hlin) & Hidx).
+  pose proof Hd0 as Hd. unfold pdl_apply in Hd. rewrite Hx in Hd. unfold interp_apply. rewrite Hx.
+  unfold compile in Hc. unfold rewrite_static_ok in Hst. unfold rewrite_frag_ok in Hfrag. unfold pdl_match, extract in *.
+  pose proof (sim_op fx P pl (o_id x) Hf Ha Hr (p_root P) [] [] [] seen' PRoot x (R_nil _ _ _) eq_refl Hx Hlin Hidx) as Hsim.
+  destruct (extract_op fx P [] (p_root P) PRoot) as [preds inp] eqn:Eext. cbn [fst snd] in *.
+  destruct (gen_stmts fx P inp (p_root P) rg_init (p_rw P)) as [[st code]|] eqn:Eg; [| discriminate].
+  inversion Hc; subst c; clear Hc.
+  apply andb_true_iff in Hst. destruct Hst as [Hst Hsync].
+  apply andb_true_iff in Hst. destruct Hst as [Hnd Hnl]. apply Z.eqb_eq in Hsync.
+  destruct (match_op fx P pl [] (p_root P) x) as [| |e] eqn:Em; try discriminate.
+  { destruct Hsim. }
+  cbn [agree] in Hsim. destruct Hsim as [Hall HR].
+  destruct (env_good fx P pl (p_root P) [] x e [] seen' ltac:(intros k _ H; exfalso; apply H; reflexivity) Hlin Em)
+    as [(Hmono & Hcinv & Hsd & Hnew) _].
+  assert (Hused : used_ok inp st) by (eapply gen_stmts_used; [| exact Eg]; intros p []).
+  destruct (all_some_map_some _ _ (eval_pos fx pl (o_id x)) (rg_used st)) as [args Hargs].
+  { intros p Hp. destruct (Hused p Hp) as [k Hk]. eapply (R_ev _ _ _ _ _ _ HR); exact Hk. }
+  assert (Him : interp_match fx {| c_matcher := gen_matcher (ordered preds) (rg_used st); c_nargs := rg_nargs st;
+                                   c_rewriter := code ++ [RFinalize] |} pl x = IMatch args).
+  { unfold interp_match. cbn [c_matcher]. rewrite chain_sound.
+    apply (proj2 (ordered_match _ _ _ _ _ _)). apply (proj2 (seq_eval_match _ _ _ _ _ _)). split; [| exact Hargs].
+    rewrite Forall_forall in Hall. exact Hall. }
+  rewrite Him. cbn [c_nargs c_rewriter].
+  assert (Hlen : zlen args = rg_nargs st).
+  { rewrite Hsync. unfold zlen. rewrite (all_some_length _ _ _ _ _ Hargs). reflexivity. }
+  rewrite Hlen, Z.eqb_refl.
+  assert (Hclosed : forall k p, klookup inp k = Some p -> exists v, klookup e k = Some v /\ eval_pos fx pl (o_id x) p = Some v).
+  { intros k p Hk. assert (Hb : klookup e k <> None).
+    { destruct (klookup e k) eqn:Ev; [discriminate |]. exfalso.
+      assert (Hs : structk k \/ ~ structk k) by (destruct k; simpl; tauto).
+      destruct Hs as [Hs | Hs].
+      - assert (Hin' : In k seen') by (eapply (R_seen _ _ _ _ _ _ HR); [exact Hs | congruence]).
+        apply (Hnew k Hin' (fun H => H)). exact Ev.
+      - apply (proj1 (R_dom _ _ _ _ _ _ HR k Hs)) in Ev. congruence. }
+    destruct (klookup e k) as [v|] eqn:Ev; [| congruence]. exists v. split; [reflexivity |].
+    eapply (R_val _ _ _ _ _ _ HR); eassumption. }
+  assert (Hnoloc' : forall l, klookup inp (KLocal l) = None) by (intro l; apply nonlocal_lookup; exact Hnl).
+  assert (Hinj' : forall k1 k2 p, klookup inp k1 = Some p -> klookup inp k2 = Some p -> k1 = k2).
+  { intros k1 k2 p H1 H2. eapply nodup_pos_inj_in; [exact Hnd | apply klookup_In; exact H1 | apply klookup_In; exact H2]. }
+  assert (HArg' : forall k p j, klookup inp k = Some p -> znth (rg_used st) j = Some p ->
+                                exists v, klookup e k = Some v /\ rrlookup (bind_args 0 args) (RA j) = Some v).
+  { intros k p j Hk Hz. destruct (Hclosed _ _ Hk) as (v & H1 & H2). exists v. split; [exact H1 |].
+    destruct (all_some_znth _ _ _ _ _ _ _ Hargs Hz) as (v' & H3 & H4). assert (v' = v) by congruence. subst v'.
+    pose proof (znth_some_range _ _ _ _ Hz) as [Hj _].
+    replace j with (0 + j) by lia. apply bind_args_lookup; assumption. }
+  assert (Hci : cinv P e) by (apply Hcinv; split; intros; discriminate).
+  destruct Hci as [HCa' HCt'].
+  pose proof (root_bound _ _ _ _ _ _ Em) as Hroot'.
+  assert (HB' : forall k p, klookup inp k = Some p -> klookup e k <> None).
+  { intros k p Hk. destruct (Hclosed _ _ Hk) as (v & H1 & _). congruence. }
+  assert (HNR : NR e).
+  { intros k v Hk. destruct (klookup inp k) as [p|] eqn:Ei.
+    - eapply eval_pos_norange. eapply (R_val _ _ _ _ _ _ HR); eassumption.
+    - exfalso. eapply (R_sub _ _ _ _ _ _ HR k); [congruence | exact Ei]. }
+  rewrite <- Hd. symmetry.
+  apply (stmts_full fx P inp (p_root P) (o_id x) e (bind_args 0 args) (rg_used st) Her Hra Hin Hnoloc' Hinj' HArg' HCa' HCt' Hroot' HB'
+                    (p_rw P) rg_init st code e (bind_args 0 args) pl).
+  - constructor; cbn [rg_vals rg_used rg_nargs rg_ntmp rg_init]; try discriminate; try reflexivity.
+    + intros j v H. rewrite bind_args_tmp in H. discriminate.
+    + intros p [].
+  - exact HNR.
+  - exact Eg.
+  - apply pre_refl.
+  - intros Hnil x' Hx'. rewrite Hx in Hx'. inversion Hx'; subst x'.
+    pose proof (root_rtys _ _ _ _ _ _ Em) as Hz. rewrite Hnil in Hz. unfold zlen in Hz. simpl in Hz.
+    destruct (o_rtys x); [reflexivity | simpl in Hz; lia].
+  - apply Forall_forall. intros s Hs. rewrite forallb_forall in Hfrag. specialize (Hfrag _ Hs).
+    apply andb_true_iff in Hfrag. destruct Hfrag as [Hfb _]. destruct s; simpl in *; try exact I; try discriminate.
+    + destruct vs; [discriminate | exact I].
+    + destruct (op_rtys (p_root P)); [discriminate | discriminate].
+  - intros s Hs k Hk Hnl'. rewrite forallb_forall in Hfrag. specialize (Hfrag _ Hs).
+    apply andb_true_iff in Hfrag. destruct Hfrag as [_ Hrb]. rewrite forallb_forall in Hrb. specialize (Hrb _ Hk).
+    unfold key_reached in Hrb. destruct k; try (destruct (klookup inp _); [discriminate | discriminate Hrb]).
+    exfalso. apply Hnl'. exact I.
 Qed.
